@@ -930,11 +930,23 @@ fn do_bind(c: &Case, p: ParsedTestCase, buf: &mut String) -> Option<TestCase> {
         }))
         .unwrap_or(None)
     };
+    let p_again = p.clone();
     let bound = catch_unwind(AssertUnwindSafe(move || p.with_signals(sigs)));
     if let Ok(r) = &bound {
         let same = match (r, &twin) {
             (Ok(a), Some(b)) => a == b,
-            (Err(_), None) => true,
+            (Err(e), None) => {
+                // a refused binding is refused with the same error every time (also when there are several reasons)
+                let want = format!("{e:?}");
+                (0..6).all(|_| {
+                    let (p3, s3) = (p_again.clone(), c.sigs.clone());
+                    catch_unwind(AssertUnwindSafe(move || p3.with_signals(s3).err().map(|e| format!("{e:?}"))))
+                        .ok()
+                        .flatten()
+                        .as_deref()
+                        == Some(want.as_str())
+                })
+            }
             _ => false,
         };
         if !same {
